@@ -104,6 +104,9 @@ def run_scenario(sc):
     ev = []
     writes, reads = [], []        # (task name, bytes) of mailbox writes / task names of mailbox reads
     outcomes = {}
+    cur = {}                      # user -> its operation in progress (op number, begin step, sent?)
+    waits = []                    # (user, op number, loop iterations from begin to its first datagram)
+    cancelled = []
 
     def on_mail(m, raw):
         who = "?"
@@ -136,6 +139,10 @@ def run_scenario(sc):
             cmd, out, _, _, offset = item[:5]
             task = asyncio.current_task()
             name = task.get_name() if task else "?"
+            st = cur.get(name)
+            if st and not st["acquired"]:        # first datagram of the operation: it has the lock
+                st["acquired"] = True
+                waits.append((name, st["op"], asyncio.get_event_loop().steps - st["begin"]))
             if cmd is ECCmd.FPWR and offset == 0x1000:
                 writes.append((name, bytes(out)))
             elif cmd is ECCmd.FPRD and offset == 0x1400:
@@ -163,21 +170,46 @@ def run_scenario(sc):
         t = terminal()
         terms = [t] + [terminal() for _ in sc["users"][1:]] if mode == "file-seq" else None
 
-        async def one(tt, i, u, kind):
+        async def one(tt, i, u, kind, k=0):
+            """one operation of a user, run as a task of its own (named after the user) so that
+            it can be cancelled; sc["cancel"] = dict(u, op, at): cancel operation number `op` of
+            user `u` `at` event-loop iterations after it began - but only while it is still
+            WAITING for the mailbox lock (it has not queued a single datagram yet; the first thing
+            a new holder does is the mailbox status read of mbx_send)"""
+            loop = asyncio.get_running_loop()
             ev.append(dict(ev="begin", u=u["name"], kind=kind))
+            sub = asyncio.ensure_future(do_op(tt, i, kind))
+            sub.set_name(u["name"])
+            st = cur[u["name"]] = dict(op=k, begin=loop.steps, acquired=False)
+            c = sc.get("cancel")
+            if c and c["u"] == u["name"] and c["op"] == k:
+                def tick():
+                    if sub.done() or st["acquired"]:
+                        return
+                    if loop.steps - st["begin"] >= c["at"]:
+                        cancelled.append(dict(u=u["name"], op=k, step=loop.steps - st["begin"]))
+                        sub.cancel()
+                    else:
+                        loop.call_soon(tick)
+                loop.call_soon(tick)
             try:
-                await do_op(tt, i, kind)
+                await sub
                 res = "ok"
+            except asyncio.CancelledError:
+                if not sub.cancelled():
+                    raise
+                res = "cancelled"
             except Exception as e:
                 res = f"{type(e).__name__}: {e}"[:80]
+            cur.pop(u["name"], None)
             ev.append(dict(ev="end", u=u["name"], res=res))
             outcomes.setdefault(u["name"], []).append(res)
 
         async def user(i, u):
             for _ in range(u["start"]):
                 await asyncio.sleep(0)
-            for kind in u["ops"]:
-                await one(t, i, u, kind)
+            for k, kind in enumerate(u["ops"]):
+                await one(t, i, u, kind, k)
 
         async def turn(tt, i, u, kind):
             await one(tt, i, u, kind)
@@ -212,7 +244,7 @@ def run_scenario(sc):
         ev.append(dict(ev="stall", u="?", what=stall))
     finally:
         logging.disable(logging.NOTSET)
-    return dict(ev=ev, outcomes=outcomes, stall=stall)
+    return dict(ev=ev, outcomes=outcomes, stall=stall, waits=waits, cancelled=cancelled)
 
 
 # ---- in-process scenarios ---------------------------------------------------------------
@@ -257,6 +289,7 @@ def scenarios(ctx):
     for a, b in itertools.product(OPLISTS[:4], OPLISTS[:4]):
         out.append(dict(lock="file-tasks", users=[dict(name="t1", ops=a, start=0),
                                                   dict(name="t2", ops=b, start=1)], script=["plain"] * 20))
+    out += cancel_scenarios(ctx)
     for _ in range(40 if ctx.quick else 300):           # extra random cases (not gating)
         k = ctx.rng.choice([2, 3])
         out.append(dict(users=[dict(name=names[i], ops=[ctx.rng.choice(sum(OPLISTS, [])) for _ in
@@ -264,6 +297,43 @@ def scenarios(ctx):
                                     start=ctx.rng.randrange(0, 8)) for i in range(k)],
                         script=[ctx.rng.choice(list(SLOTS)) for _ in range(40)], random=True,
                         lock=ctx.rng.choice(["task", "task", "file-seq"])))
+    return out
+
+
+def cancel_points(w, quick):
+    """cancellation points of a wait of w event-loop iterations: every point at its start and
+    around the hand-over of the lock, a stride in between"""
+    pts = set(range(0, 7)) | set(range(max(0, w - 10), w))
+    pts |= set(range(7, max(7, w - 10), 9 if quick else 3))
+    return sorted(x for x in pts if x < w)
+
+
+def cancel_scenarios(ctx):
+    """a user is cancelled (task.cancel(), a timeout ...) while it is still waiting for the
+    mailbox lock, with another user holding the mailbox and others queued behind or arriving
+    later; the cancelled user retries with its next operation.  For every base scenario a probe
+    run measures how long the victim waits; one scenario per cancellation point follows."""
+    out = []
+    holders = [["rd_seg"], ["coe_list", "rd_exp"], ["rd_exp"]]
+    for lock in ("task", "file-tasks"):
+        for h in holders:
+            bases = [
+                # victim t2 in the middle of the queue, t3 behind it
+                ([("t1", h, 0), ("t2", ["rd_exp", "wr_exp"], 1), ("t3", ["rd_norm"], 2)], "t2"),
+                # victim t3 last in the queue
+                ([("t1", h, 0), ("t2", ["wr_exp"], 1), ("t3", ["rd_exp", "rd_exp"], 2)], "t3"),
+                # two users: the victim retries while the holder is still busy; a third arrives late
+                ([("t1", h + h, 0), ("t2", ["rd_exp", "rd_exp"], 1), ("t3", ["wr_exp"], 40)], "t2"),
+            ]
+            for users, victim in bases:
+                base = dict(lock=lock, script=["d3", "d1"] * 12,
+                            users=[dict(name=n, ops=o, start=st) for n, o, st in users])
+                probe = run_scenario(base)
+                w = [x[2] for x in probe["waits"] if x[0] == victim and x[1] == 0]
+                if not w:
+                    raise T.MachineryError(f"probe run: {victim} never sent: {probe['outcomes']}")
+                for at in cancel_points(w[0], ctx.quick):
+                    out.append(dict(base, cancel=dict(u=victim, op=0, at=at)))
     return out
 
 
@@ -419,7 +489,8 @@ def judge_inproc(ctx, sc, tr, result):
     if matched == length and not isinstance(inv, str):
         return
     bad = tr["ev"][matched] if matched < length else None
-    case = dict(part="in-process", lock=sc.get("lock", "task"),
+    case = dict(part="in-process", lock=sc.get("lock", "task"), cancel=sc.get("cancel"),
+                cancelled=tr.get("cancelled", []),
                 scenario={k: v for k, v in sc.items()}, rejected_at=matched,
                 rejected_event=bad, outcomes=tr["outcomes"], stall=tr["stall"],
                 events=tr["ev"][max(0, matched - 6):matched + 2])
@@ -454,6 +525,13 @@ def judge_cross(ctx, sc, tr, result):
 
 
 def run(ctx):
+    try:
+        _run(ctx)
+    finally:
+        shutil.rmtree(LOCKDIR, ignore_errors=True)
+
+
+def _run(ctx):
     from concurrent.futures import ThreadPoolExecutor
     quick = ctx.quick
     # schedules: (layout, cycles, failing lock attempts, existing file, exceptional exits, atomic)
@@ -520,7 +598,9 @@ def run(ctx):
                 "start offsets x response-delay scripts, incl. operations that raise after their mail went "
                 "out (missing object, scripted abort); the same operations by 2-3 participants taking "
                 "turns on the real ParallelMailboxLock + LockFile, and by tasks sharing one "
-                "ParallelMailboxLock (+ random); non-trivial = an operation begins while another user's is "
+                "ParallelMailboxLock; a waiting user cancelled at every point of its wait near its start "
+                "and near the hand-over (stride in between) with users queued behind it, for both lock "
+                "kinds (+ random); non-trivial = an operation begins while another user's is "
                 "in progress, or two participants send through the lock file.  cross-process: every TLC-enumerated interleaving "
                 "of the system-call steps of 2 processes (same / different terminal, 1 cycle each, and a "
                 "process whose two tasks hold the locks of two terminals while a second process wants "
@@ -537,6 +617,7 @@ def replay(ctx, case):
     if case.get("part") == "in-process":
         sc = case["scenario"]
         tr = run_scenario(sc)
+        shutil.rmtree(LOCKDIR, ignore_errors=True)
         r = validate_mailbox(ctx, [dict(ev=tr["ev"])])[0]
         for e in tr["ev"]:
             print("  ", e)
